@@ -12,7 +12,7 @@ Generator : histories of job-table operations over xonsh/procs/jobs.py, executed
             thread.  Every operation runs either on the main thread or inside a worker thread
             standing for a callable-alias thread, in lock-step (the harness owns the interleaving at
             command granularity).  Three families: (a) every history of length <= 4 (quick) / 5
-            (thorough) over a fixed 20-operation alphabet that starts with an add_job, enumerated
+            (thorough) over a fixed 22-operation alphabet that starts with an add_job, enumerated
             completely; (b) Hypothesis RuleBasedStateMachine histories of up to 40 / 60 steps;
             (c) the same model against real children: `sleep 300 &` run through the real Execer
             (specs._run_command_pipeline -> add_job), SIGKILL as process exit, jobs / disown /
@@ -55,7 +55,7 @@ LEVEL = "exploration"
 RULE = ("history = sequence of job-table operations (add_job, process exit, jobs, fg, bg, disown with valid / "
         "invalid / duplicate / garbage arguments, purges, get_next_task, get_next_job_number, clean_jobs, env flips, "
         "alias-thread respawn), each run on the main thread or in an alias-like worker thread in lock-step, against "
-        "stub processes; all histories of length <= 4 (quick) / 5 (thorough) over a fixed 20-operation alphabet "
+        "stub processes; all histories of length <= 4 (quick) / 5 (thorough) over a fixed 22-operation alphabet "
         "that start with an add_job are enumerated, longer ones (<= 40 / 60 steps) are drawn by a Hypothesis state "
         "machine, and a third family drives real `sleep 300 &` children through the Execer; non-trivial = the "
         "history contains a step executed on a table holding >= 2 live jobs or a finished job not yet purged; "
@@ -63,7 +63,10 @@ RULE = ("history = sequence of job-table operations (add_job, process exit, jobs
 HOOKS = False
 
 F1 = "C20-F1"
-DEFAULT_TOLERATE = (F1,)
+F2 = "C20-F2"
+DEFAULT_TOLERATE = (F1, F2)
+# operations another actor may perform inside a poll() of the interrupted command
+NESTED_OPS = ("add", "finish", "jobs", "fg", "bg", "disown", "clear", "next_task", "next_num")
 
 GARBAGE = ["abc", "1.5", "", "%1", "1a", "++", "--", "0x1", "1 2", "one"]
 AMBIGUOUS = ["+1", "01", " 2", "2 ", "1_0"]      # int() accepts them, a shell user might not: both outcomes accepted
@@ -92,12 +95,18 @@ class StubProc:
 
     pid = None
 
-    def __init__(self, key):
+    def __init__(self, key, harness=None):
         self.key = key
         self.returncode = None
         self.calls = []         # harmless: nothing here reaches the OS
+        self.armed = None       # operations another actor performs while xonsh is inside this poll()
+        self._harness = harness
 
     def poll(self):
+        # a harness-owned point *inside* a table operation: when armed by the history, the other actor
+        # performs its pending operations now, completely, before this poll() returns
+        if self.armed is not None and self._harness is not None:
+            self._harness._poll_point(self)
         return self.returncode
 
     def wait(self, timeout=None):
@@ -136,6 +145,7 @@ class Actor:
     def __init__(self):
         self.q = queue.SimpleQueue()
         self.r = queue.SimpleQueue()
+        self.cbr = queue.SimpleQueue()
         self.t = threading.Thread(target=self._loop, name="c20-alias-thread", daemon=True)
         self.t.start()
 
@@ -145,16 +155,32 @@ class Actor:
             if fn is None:
                 return
             try:
-                self.r.put((True, fn()))
+                self.r.put(("res", True, fn()))
             except BaseException as e:  # noqa: BLE001  (SystemExit from argparse is an outcome)
-                self.r.put((False, e))
+                self.r.put(("res", False, e))
 
     def call(self, fn):
+        """Main thread: have the worker run fn and wait; meanwhile serve the worker's call-backs."""
         self.q.put(fn)
-        try:
-            ok, v = self.r.get(timeout=30)
-        except queue.Empty:
-            raise _Timeout()
+        while True:
+            try:
+                kind, ok, v = self.r.get(timeout=30)
+            except queue.Empty:
+                raise _Timeout()
+            if kind == "cb":
+                try:
+                    self.cbr.put((True, v()))
+                except BaseException as e:  # noqa: BLE001
+                    self.cbr.put((False, e))
+                continue
+            if not ok:
+                raise v
+            return v
+
+    def callback(self, fn):
+        """Worker thread (inside a command): have the *main* thread run fn now and wait for it."""
+        self.r.put(("cb", True, fn))
+        ok, v = self.cbr.get(timeout=60)
         if not ok:
             raise v
         return v
@@ -188,8 +214,8 @@ class MTable:
         self.entries = {}
         self.mru = []
 
-    def purge(self):
-        dead = [n for n in self.mru if not self.entries[n].alive]
+    def purge(self, keep=()):
+        dead = [n for n in self.mru if not self.entries[n].alive and self.entries[n] not in keep]
         for n in dead:
             del self.entries[n]
         if dead:
@@ -384,6 +410,14 @@ class Harness:
         os.killpg = self._guard("killpg")
         self.worker = None          # the alias thread is started at its first use
         self._w_seen = None
+        self._in_nested = False     # a nested operation (performed inside a poll()) is running
+        self._nested_exc = None
+        self._nested_ctx = ""
+        self._window_dead = set()   # jobs that finished inside the current command's polling window
+        self._window_added = []     # (number, MJob) registered on the main table inside the window
+        self._resume_mark = 0
+        self._pre_nums = set()      # numbers registered on the main table when the command started
+        self.windows = 0
         self.w_jobs, self.w_tasks = {}, []
         signal.alarm(120)
 
@@ -406,15 +440,16 @@ class Harness:
     def _fail(self, kind, detail, finding=None):
         self.failed = True
         ops = list(self.ops)
-        if len(ops) > 50:       # common.jsonable() cuts lists at 60 items: store long histories in chunks
-            ops = [ops[i:i + 50] for i in range(0, len(ops), 50)]
-        case = {"ops": ops, "tolerate": sorted(self.tolerate)}
+        case = {"ops": ops[:50], "tolerate": sorted(self.tolerate)}
+        for i in range(50, len(ops), 50):   # common.jsonable() cuts lists at 60 items: long histories go in chunks
+            case["ops_%d" % (i // 50 + 1)] = ops[i:i + 50]
         if isinstance(self, RealHarness):
             case["real"] = True
         op = self.ops[-1]["op"] if self.ops else "init"
-        raise Mismatch(Failure(kind, case, "step %d %s: %s" % (len(self.ops), _show(self.ops[-1]) if self.ops else "",
-                                                               detail),
-                               finding=finding, bucket=finding or "%s:%s" % (kind, op)))
+        raise Mismatch(Failure(kind, case, "step %d %s: %s%s" % (len(self.ops), _show(self.ops[-1]) if self.ops else "",
+                                                                 self._nested_ctx, detail),
+                               finding=finding, bucket=finding or "%s:%s%s" % (kind, op, "+nested" if self._nested_ctx
+                                                                                else "")))
 
     def _need_worker(self):
         if self.worker is None:
@@ -451,6 +486,7 @@ class Harness:
     def _invoke(self, actor, fn):
         """Run fn on the actor's thread -> ('ret', value) | ('exit', code, stderr-text)."""
         old = sys.stdout, sys.stderr
+        old_target = _state["proxy"].target
         out, err = io.StringIO(), io.StringIO()
         sys.stdout, sys.stderr = out, err
         _state["proxy"].target = out
@@ -470,9 +506,83 @@ class Harness:
             self._fail("exception", "%s: %s" % (type(e).__name__, e))
         finally:
             sys.stdout, sys.stderr = old
-            _state["proxy"].target = None
+            _state["proxy"].target = old_target
+            if not self._in_nested and self._nested_exc is not None:
+                exc, self._nested_exc = self._nested_exc, None
+                raise exc               # a disagreement found while a nested operation ran inside this command
         self.last_out, self.last_err = out.getvalue(), err.getvalue()
+        if not self._in_nested:
+            self._settle_window()
         return res
+
+    # -- intra-operation interleaving: the poll() of an armed stub is a schedule point --------------
+
+    def _poll_point(self, stub):
+        """Called from StubProc.poll() on whatever thread xonsh is polling from."""
+        if self._in_nested or self._nested_exc is not None:
+            return          # the clean-up of a nested operation does not open a window of its own
+        nested, stub.armed = stub.armed, None
+        caller = "m" if threading.current_thread() is threading.main_thread() else "w"
+        if caller == "m":
+            self._run_nested(stub, nested, caller)
+        else:
+            self.worker.callback(lambda: self._run_nested(stub, nested, caller))
+
+    def _run_nested(self, stub, nested, caller):
+        """Always on the main thread: perform the other actor's operations, completely, now."""
+        self._in_nested = True
+        self.windows += 1
+        self.hist["poll-window-opened"] += 1
+        try:
+            for nop in nested:
+                name = nop["op"]
+                if name not in NESTED_OPS:
+                    raise common.HarnessError("operation %r cannot be nested" % (nop,))
+                actor = None if name == "finish" else "m" if name == "fg" else nop.get("actor", "m")
+                if actor == caller:
+                    # it would run on the very thread that is inside poll(): not an interleaving of two threads
+                    self.hist["nested-skipped:same-thread"] += 1
+                    continue
+                self.hist["nested:" + name] += 1
+                self._nested_ctx = "inside poll() of job k%d, while %s: " % (stub.key, _show(nop))
+                getattr(self, "_op_" + name)(nop)
+                self._check_tables(nop)
+                self._nested_ctx = ""
+        except BaseException as e:  # noqa: BLE001  (re-raised when the interrupted command has returned)
+            self._nested_exc = e
+        finally:
+            self._in_nested = False
+
+    def _purge(self, tname):
+        """Model purge.  A job that finished inside this command's polling window may already have been
+        polled (seen alive) by the command: it may stay until the next purge."""
+        T = self.tables[tname]
+        keep = ()
+        if not self._in_nested and self._window_dead and tname == "m":
+            tasks, jobs = self._tasks_of("m"), self._jobs_of("m")
+            keep = [mj for n, mj in T.entries.items()
+                    if mj in self._window_dead and n in tasks and jobs.get(n) is mj.info]
+        return T.purge(keep)
+
+    def _settle_window(self):
+        """Recorded finding F2, exactly: a job that a nested add_job registered under a number that another
+        (meanwhile finished) job held when the interrupted command started is gone from both structures when
+        the command returns (the command collected the old number for removal before the number was re-used)."""
+        if not self._window_added:
+            return
+        T = self.tables["m"]
+        tasks, jobs = self._tasks_of("m"), self._jobs_of("m")
+        for n, mj in self._window_added:
+            if T.entries.get(n) is mj and n in self._pre_nums and n not in tasks and n not in jobs:
+                if F2 not in self.tolerate:
+                    self._fail("live-job-dropped",
+                               "job %d (k%d), registered by another thread while this command was polling, re-used "
+                               "the number of a finished job the command had already collected for removal; the "
+                               "command then removed the new, live job from the table (table now %r)"
+                               % (n, mj.key, list(tasks)), finding=F2)
+                self.tolerated[F2] += 1
+                T.remove(n)
+        self._window_added = []
 
     def _jobs_of(self, t):
         return self.XSH.all_jobs if t == "m" else self.w_jobs
@@ -498,6 +608,11 @@ class Harness:
             self.hist["live-jobs-at-step:%d" % min(nlive, 6)] += 1
         self.hist["op:" + name] += 1
         self._w_seen = None
+        self._window_dead = set()
+        self._window_added = []
+        self._nested_ctx = ""
+        self._pre_nums = set(self.tables["m"].mru)
+        self._resume_mark = len(self.resume_log)
         if op.get("actor") == "w":
             self.hist["step-in-alias-thread"] += 1
         try:
@@ -557,7 +672,7 @@ class Harness:
         T = self.tables[actor]
         key = self.nkeys
         self.nkeys += 1
-        proc = StubProc(key)
+        proc = StubProc(key, self)
         pl = StubPipeline(key, op.get("captured", False), self.resume_log)
         info = {"cmds": [["vjob", "k%d" % key]], "pids": [None], "obj": proc, "bg": bool(op["bg"]),
                 "pipeline": pl, "pgrp": None}
@@ -565,10 +680,12 @@ class Harness:
             info["status"] = op["status"]
         xj = self.xj
         self._invoke(actor, lambda: xj.add_job(info))
-        T.purge()
+        self._purge(actor)
         num = T.lowest_free()
         T.entries[num] = MJob(key, info, proc, bool(op["bg"]), op.get("status") or "running")
         T.mru.insert(0, num)
+        if self._in_nested and actor == "m":
+            self._window_added.append((num, T.entries[num]))
         got = sorted(n for n, j in self._jobs_of(actor).items() if j is info)
         if got != [num]:
             other = "m" if actor == "w" else "w"
@@ -582,6 +699,17 @@ class Harness:
             return
         mj.proc.returncode = int(op.get("rc", 0))
         mj.alive = False
+        if self._in_nested:
+            self._window_dead.add(mj)
+
+    def _op_arm(self, op):
+        """Arm the poll() of a registered main-table job: the next command that polls it is interrupted
+        there and the listed operations of the other actor run to completion inside that poll()."""
+        mj = self.tables["m"].entries.get(op["num"])
+        if mj is None or not isinstance(mj.proc, StubProc):
+            return
+        mj.proc.armed = [dict(x) for x in op["nested"]]
+        self.hist["poll-armed"] += 1
 
     def _op_jobs(self, op):
         xj = self.xj
@@ -590,7 +718,7 @@ class Harness:
         args = ["--posix"] if posix else []
         res = self._invoke(op["actor"], lambda: xj.jobs(args, stdout=buf))
         T = self.tables["m"]
-        T.purge()
+        self._purge("m")
         if is_error(res):
             self._fail("unexpected-error", "jobs returned %r" % (res,))
         lines = [ln for ln in buf.getvalue().split("\n") if ln]
@@ -627,12 +755,12 @@ class Harness:
         actor = op.get("actor", "m")
         fn = xj.fg if name == "fg" else xj.bg
         T = self.tables["m"]
-        T.purge()
+        res = self._invoke(actor, lambda: fn(list(args)))      # nested operations may run in here
+        self._purge("m")
         exp = ref_select(T, args)
-        n0 = len(self.resume_log)
-        res = self._invoke(actor, lambda: fn(list(args)))
         err = is_error(res)
-        new = self.resume_log[n0:]
+        new = self.resume_log[self._resume_mark:]
+        self._resume_mark = len(self.resume_log)
         self.hist["select:%s" % ("error" if err else "ok")] += 1
         if exp[0] == "err" or (exp[0] == "either" and err):
             if not err:
@@ -665,9 +793,9 @@ class Harness:
         xj = self.xj
         args = list(op["args"])
         T = self.tables["m"]
-        cands = ref_disown(T, args)
-        before = list(T.mru)
         res = self._invoke(op["actor"], lambda: xj.disown(list(args)))
+        cands = ref_disown(T, args)         # on the model as it is now (after any nested operation)
+        before = list(T.mru)
         err = is_error(res)
         after = list(xj._tasks_main)
         self.hist["disown:%s" % ("error" if err else "ok")] += 1
@@ -695,13 +823,13 @@ class Harness:
     def _op_clear(self, op):
         xj = self.xj
         self._invoke(op["actor"], xj._clear_dead_jobs)
-        self.tables[op["actor"]].purge()
+        self._purge(op["actor"])
 
     def _op_next_task(self, op):
         xj = self.xj
         res = self._invoke(op["actor"], xj.get_next_task)
         T = self.tables[op["actor"]]
-        T.purge()
+        self._purge(op["actor"])
         want = None
         for n in T.mru:
             mj = T.entries[n]
@@ -719,7 +847,7 @@ class Harness:
         xj = self.xj
         res = self._invoke(op["actor"], xj.get_next_job_number)
         T = self.tables[op["actor"]]
-        T.purge()
+        self._purge(op["actor"])
         if res != ("ret", T.lowest_free()):
             self._fail("job-number", "get_next_job_number returned %r, reference %d (registered %r)"
                        % (res[1:], T.lowest_free(), sorted(T.entries)))
@@ -729,8 +857,10 @@ class Harness:
         inter = bool(self.XSH.env.get("XONSH_INTERACTIVE"))
         res = self._invoke("m", xj.clean_jobs)
         T = self.tables["m"]
-        T.purge()
+        self._purge("m")
         want = (not T.mru) if inter else True
+        if inter and self._window_dead and res in (("ret", True), ("ret", False)):
+            return      # a job died while clean_jobs was looking: either answer is right
         if res != ("ret", want):
             self._fail("clean-jobs", "clean_jobs() (interactive=%r) returned %r, reference %r with live jobs %r"
                        % (inter, res[1:], want, T.mru))
@@ -761,12 +891,19 @@ def _show(op):
     d = dict(op)
     name = d.pop("op")
     actor = d.pop("actor", None)
+    if "nested" in d:
+        d["nested"] = "[" + "; ".join(_show(x) for x in d["nested"]) + "]"
     s = name + ("(" + ", ".join("%s=%r" % kv for kv in sorted(d.items())) + ")" if d else "")
     return s + (" [alias thread]" if actor == "w" else "")
 
 
 def _flat_ops(case):
-    return [o for x in case["ops"] for o in (x if isinstance(x, list) else [x])]
+    out = [o for x in case["ops"] for o in (x if isinstance(x, list) else [x])]
+    i = 2
+    while "ops_%d" % i in case:
+        out += case["ops_%d" % i]
+        i += 1
+    return out
 
 
 def check_history(case):
@@ -817,6 +954,14 @@ def minimize_history(case, bucket, budget=4000):
                     if fails(cand):
                         ops = cand
                         changed = True
+            if "nested" in o and len(o["nested"]) > 1 and runs[0] < budget:
+                for j in range(len(o["nested"])):
+                    cand = [dict(x) for x in ops]
+                    cand[i]["nested"] = o["nested"][:j] + o["nested"][j + 1:]
+                    if fails(cand):
+                        ops = cand
+                        changed = True
+                        break
             if "args" in o and runs[0] < budget:
                 for j in range(len(o["args"])):
                     cand = [dict(x) for x in ops]
@@ -868,6 +1013,12 @@ ALPHABET = [
     {"op": "next_task", "actor": "m"},
     {"op": "clear", "actor": "m"},
     {"op": "clean"},
+    # intra-operation interleavings: the next command that polls the armed job is interrupted inside that
+    # poll() and the other actor's operations run to completion there
+    {"op": "arm", "num": 2, "nested": [{"op": "add", "actor": "m", "bg": True},
+                                       {"op": "finish", "table": "m", "num": 1}]},
+    {"op": "arm", "num": 1, "nested": [{"op": "disown", "actor": "w", "args": ["2"]},
+                                       {"op": "finish", "table": "m", "num": 1}]},
 ]
 
 
@@ -933,6 +1084,26 @@ def make_machine():
         "op": st.just("add"), "actor": add_actors, "bg": st.booleans(),
         "status": st.sampled_from(STATUSES), "captured": st.sampled_from([False, False, "object", "hiddenobject"]),
     })
+
+    main_add = st.fixed_dictionaries({"op": st.just("add"), "actor": st.just("m"), "bg": st.booleans(),
+                                      "status": st.sampled_from(STATUSES), "captured": st.just(False)})
+    nested_finish = st.fixed_dictionaries({"op": st.just("finish"), "table": st.just("m"), "num": st.integers(1, 6)})
+    nested_main = st.one_of(
+        main_add, main_add, main_add, nested_finish, nested_finish,
+        st.fixed_dictionaries({"op": st.just("fg"), "args": sel_args}),
+        st.fixed_dictionaries({"op": st.just("bg"), "actor": st.just("m"), "args": sel_args}),
+        st.fixed_dictionaries({"op": st.just("disown"), "actor": st.just("m"), "args": ids}),
+        st.fixed_dictionaries({"op": st.just("jobs"), "actor": st.just("m"), "posix": st.booleans()}),
+        st.sampled_from([{"op": "clear", "actor": "m"}, {"op": "next_task", "actor": "m"},
+                         {"op": "next_num", "actor": "m"}]),
+    )
+    nested_alias = st.one_of(
+        nested_finish, nested_finish,
+        st.fixed_dictionaries({"op": st.just("disown"), "actor": st.just("w"), "args": ids}),
+        st.fixed_dictionaries({"op": st.just("disown"), "actor": st.just("w"), "args": small.map(lambda s: [s])}),
+        st.fixed_dictionaries({"op": st.just("bg"), "actor": st.just("w"), "args": sel_args}),
+        st.fixed_dictionaries({"op": st.just("jobs"), "actor": st.just("w"), "posix": st.booleans()}),
+    )
 
     class JobTableMachine(RuleBasedStateMachine):
         def __init__(self):
@@ -1021,6 +1192,38 @@ def make_machine():
             elif extra is not None:
                 ids_.insert(0 if extra_first else len(ids_), extra)
             self.h.apply({"op": "disown", "actor": actor, "args": fl + ids_})
+
+        # -- interleavings inside one operation: armed poll() ----------------------------------
+        def _arm(self, pick, nested):
+            nums = sorted(self.h.tables["m"].mru)
+            self.h.apply({"op": "arm", "num": nums[pick % len(nums)], "nested": nested})
+
+        @precondition(lambda self: bool(self.h.tables["m"].mru))
+        @rule(pick=st.integers(0, 31), nested=st.lists(st.one_of(nested_main, nested_alias), min_size=1, max_size=3))
+        def arm(self, pick, nested):
+            self._arm(pick, nested)
+
+        @precondition(lambda self: bool(self.h.tables["m"].mru))
+        @rule(pick=st.integers(0, 31), nested=st.lists(nested_main, min_size=1, max_size=3),
+              outer=st.one_of(st.fixed_dictionaries({"op": st.just("jobs"), "actor": st.just("w"), "posix": st.booleans()}),
+                              st.fixed_dictionaries({"op": st.just("bg"), "actor": st.just("w"), "args": sel_args})))
+        def race_alias_command_with_main(self, pick, nested, outer):
+            # the alias thread runs jobs / bg on the main table; inside its clean-up the main thread acts
+            self._arm(pick, nested)
+            self.h.apply(dict(outer))
+
+        @precondition(lambda self: bool(self.h.tables["m"].mru))
+        @rule(pick=st.integers(0, 31), nested=st.lists(nested_alias, min_size=1, max_size=3),
+              outer=st.one_of(st.fixed_dictionaries({"op": st.just("jobs"), "actor": st.just("m"), "posix": st.booleans()}),
+                              st.fixed_dictionaries({"op": st.just("fg"), "args": sel_args}),
+                              st.fixed_dictionaries({"op": st.just("bg"), "actor": st.just("m"), "args": sel_args}),
+                              main_add,
+                              st.sampled_from([{"op": "next_task", "actor": "m"}, {"op": "next_num", "actor": "m"},
+                                               {"op": "clear", "actor": "m"}, {"op": "clean"}])))
+        def race_main_command_with_alias(self, pick, nested, outer):
+            # the main thread runs a command; inside its clean-up the alias thread runs jobs / bg / disown
+            self._arm(pick, nested)
+            self.h.apply(dict(outer))
 
         # -- the functions the pipeline machinery calls --------------------------------------
         @rule(actor=actors)
